@@ -1,3 +1,4 @@
 pub mod bitmaps;
+pub mod frozen;
 pub mod inputs;
 pub mod rswords;
